@@ -20,7 +20,7 @@ pub const F12_TAG: &str = "combined-ed25519-signer+valid-secp256k1-entry";
 pub trait DynOwner {
     fn backend(&self) -> Backend;
     fn key_specs(&self) -> Vec<KeySpec>;
-    fn build(&mut self, calls: &[BCall], slot: u8, cx: &mut Cx);
+    fn build(&mut self, calls: &[BCall], slot: u8, reuse: Option<u8>, cx: &mut Cx);
     fn op(&mut self, op: &Op, slot: u8, cx: &mut Cx);
     fn arm(&mut self, slot: u8, nth: u64);
     fn arm_absolute(&mut self, slot: u8, at: u64);
@@ -180,7 +180,7 @@ impl<K: BaseKey> Owner<K> {
     fn tag_known(cx: &mut Cx, from: usize, tag: &str) {
         cx.stat(&format!("known-trigger:{tag}"));
         for v in &mut cx.viols[from..] {
-            if matches!(v.prop.as_str(), "C01" | "C04" | "C05" | "C10" | "C12") {
+            if matches!(v.prop.as_str(), "C01" | "C04" | "C05" | "C10" | "C12" | "C15") {
                 v.check = format!("{}/known-trigger:{tag}", v.check);
             }
         }
@@ -203,6 +203,74 @@ impl<K: BaseKey> Owner<K> {
                 pk_kind: signer_kind,
                 pk: signer_pk,
             });
+        }
+    }
+
+    /// C07 "encoding and decoding preserve the number": if the record does not decode again but the
+    /// same content re-signed at sequence number 1 does, the sequence number is what the decoder
+    /// refuses.
+    fn seq_causal_probe(&self, v: &View, signer: usize, cx: &mut Cx) {
+        if !v.deep || !matches!(v.rt_bytes, Some(None)) || v.seq == 1 {
+            return;
+        }
+        let Some(rec) = self.rec.as_ref() else { return };
+        let key = &self.keys[signer].1;
+        let calls_before = key.calls();
+        let ok = guard("set_seq (probe)", || {
+            let mut c = rec.clone();
+            if c.set_seq(1, key).is_err() {
+                return false;
+            }
+            let e = alloy_rlp::encode(&c);
+            Enr::<Faulty<K>>::decode(&mut e.as_slice()).is_ok()
+        });
+        // the probe's signing call must not shift later fault positions
+        let _ = calls_before;
+        let _ = key.drain_ledger();
+        if ok == Some(true) {
+            cx.push(viol("C07", "C07/decoder-rejects-sequence-number",
+                format!("record with seq {} is rejected by the decoder, the same content at seq 1 is accepted: {}", v.seq, hex(&v.encoded))));
+        }
+    }
+
+    fn builder_readback(calls: &[BCall], v: &View, cx: &mut Cx) {
+        let key_of = |c: &BCall| -> Option<Vec<u8>> {
+            Some(match c {
+                BCall::Seq(_) => return None,
+                BCall::AddValue { key, .. } | BCall::AddValueRlp { key, .. } => key.clone(),
+                BCall::Ip(ip) => if ip.is_v4() { b"ip".to_vec() } else { b"ip6".to_vec() },
+                BCall::Ip4(_) => b"ip".to_vec(),
+                BCall::Ip6(_) => b"ip6".to_vec(),
+                BCall::Tcp4(_) => b"tcp".to_vec(),
+                BCall::Tcp6(_) => b"tcp6".to_vec(),
+                BCall::Udp4(_) => b"udp".to_vec(),
+                BCall::Udp6(_) => b"udp6".to_vec(),
+                BCall::ClientInfo { .. } => b"client".to_vec(),
+            })
+        };
+        let mut seen: std::collections::BTreeSet<Vec<u8>> = std::collections::BTreeSet::new();
+        for c in calls.iter().rev() {
+            let Some(k) = key_of(c) else { continue };
+            if !seen.insert(k) {
+                continue; // an earlier writer of a key written again later
+            }
+            let mut bad = |name: &str, d: String| {
+                cx.push(viol("C14", format!("C14/builder-readback/{name}"), d));
+            };
+            match c {
+                BCall::Tcp4(p) if v.tcp4 != Some(Some(*p)) => bad("tcp4", format!("built with tcp4({p}), tcp4() = {:?}", v.tcp4)),
+                BCall::Tcp6(p) if v.tcp6 != Some(Some(*p)) => bad("tcp6", format!("built with tcp6({p}), tcp6() = {:?}", v.tcp6)),
+                BCall::Udp4(p) if v.udp4 != Some(Some(*p)) => bad("udp4", format!("built with udp4({p}), udp4() = {:?}", v.udp4)),
+                BCall::Udp6(p) if v.udp6 != Some(Some(*p)) => bad("udp6", format!("built with udp6({p}), udp6() = {:?}", v.udp6)),
+                BCall::Ip(IpArg::V4(a)) | BCall::Ip4(a) if v.ip4 != Some(Some(*a)) => bad("ip4", format!("built with {a:?}, ip4() = {:?}", v.ip4)),
+                BCall::Ip(IpArg::V6(a)) | BCall::Ip6(a) if v.ip6 != Some(Some(*a)) => bad("ip6", format!("built with {a:?}, ip6() = {:?}", v.ip6)),
+                BCall::ClientInfo { name, version, build } => {
+                    if v.client_info != Some(Some((name.clone(), version.clone(), build.clone()))) {
+                        bad("client_info", format!("client_info() = {:?}", v.client_info));
+                    }
+                }
+                _ => {}
+            }
         }
     }
 
@@ -306,11 +374,25 @@ impl<K: BaseKey> DynOwner for Owner<K> {
         }
     }
 
-    fn build(&mut self, calls: &[BCall], slot: u8, cx: &mut Cx) {
+    fn build(&mut self, calls: &[BCall], slot: u8, reuse: Option<u8>, cx: &mut Cx) {
         let i = self.slot(slot);
+        // builder reuse only with another key of the same scheme (a stale key entry of another
+        // scheme is a different question)
+        let first = reuse
+            .map(|r| self.slot(r))
+            .filter(|r| *r != i && self.keys[*r].0.backend.pk_kind() == self.keys[i].0.backend.pk_kind());
+        if let Some(r) = first {
+            // the discarded first build consumes a signing call of that key
+            let _ = r;
+            cx.stat("builder-reused");
+        }
         let info = self.signer_info(i);
-        let pred = predict_build(calls, &info);
-        let real = build_real::<Faulty<K>>(calls, &self.keys[i].1);
+        let mut pred = predict_build(calls, &info);
+        if first.is_some() && !pred.causes.is_empty() {
+            // the first build already failed the same way; nothing more to learn
+            pred.judged = false;
+        }
+        let real = build_real::<Faulty<K>>(calls, &self.keys[i].1, first.map(|r| &self.keys[r].1));
         Self::flush_panics(cx, "Builder");
         let b = self.backend.name();
         cx.log(&format!("build node={b} calls={} -> {}", calls.len(), match &real {
@@ -323,7 +405,7 @@ impl<K: BaseKey> DynOwner for Owner<K> {
             Err(()) => {}
             Ok(Err(kind)) => {
                 cx.trans(format!("{b}/build/{}/{}", calls.len().min(6), kind.name()));
-                if pred.judged {
+                if pred.judged && !pred.judged_ok_only {
                     if pred.causes.is_empty() {
                         if kind == ErrKind::ExceedsMaxSize {
                             if !(pred.slack_zone) && fixed {
@@ -371,17 +453,19 @@ impl<K: BaseKey> DynOwner for Owner<K> {
                 } else {
                     cx.stat("unjudged:build");
                 }
-                // typed builder methods read back
-                for c in calls.iter().rev() {
-                    // only the last write per key counts; keep it simple: check the final view against the model
-                    let _ = c;
-                    break;
-                }
+                // C14: what the typed builder methods stored reads back as the value set (the last
+                // writer of each key counts)
+                Self::builder_readback(calls, &v, cx);
+                // a record that came out broken (a violation, or the known F12 trigger) ends the
+                // node's history here: one defect, one report
+                let broke = cx.viols[vstart..].iter().any(|x| x.prop == "C05");
                 self.rec = Some(rec);
                 self.view = Some(v);
-                self.ended = false;
+                self.ended = broke;
                 self.resync(info.pk_kind, info.pk.clone());
-                self.clone_into_pool(cx);
+                if !broke {
+                    self.clone_into_pool(cx);
+                }
             }
         }
         self.drain_ledger(cx);
@@ -491,7 +575,14 @@ impl<K: BaseKey> DynOwner for Owner<K> {
                 } else {
                     cx.stat(&format!("unjudged:{}", pred.why_unjudged));
                 }
+                // whatever was true of the record before a failed call is still true of it
+                let mut out = Vec::new();
+                check_view(&after, &self.rcx("after-failed-update", true), &mut out);
+                cx.extend(out);
                 self.view = Some(after);
+                // the (unchanged) record joins the pool: a record that silently lost a pair still
+                // `==` its earlier clone, which C15 must notice
+                self.clone_into_pool(cx);
                 if changed {
                     self.ended = true;
                 }
@@ -503,14 +594,15 @@ impl<K: BaseKey> DynOwner for Owner<K> {
                 check_view(&after, &self.rcx("updated", same_scheme), &mut out);
                 let broke = out.iter().any(|v| v.prop == "C05");
                 cx.extend(out);
+                // C07 holds for every successful update, whatever key signs it
+                if before.seq == u64::MAX && !matches!(op, Op::SetSeq(_)) {
+                    cx.push(viol("C07", format!("C07/update-at-max-accepted/{opn}"), format!("seq after = {}", after.seq)));
+                } else if after.seq != pred.next.seq {
+                    cx.push(viol("C07", format!("C07/seq-after/{opn}"),
+                        format!("seq {} -> {}, expected {}", before.seq, after.seq, pred.next.seq)));
+                }
                 if same_scheme {
-                    // C07
-                    if before.seq == u64::MAX && !matches!(op, Op::SetSeq(_)) {
-                        cx.push(viol("C07", format!("C07/update-at-max-accepted/{opn}"), format!("seq after = {}", after.seq)));
-                    } else if after.seq != pred.next.seq {
-                        cx.push(viol("C07", format!("C07/seq-after/{opn}"),
-                            format!("seq {} -> {}, expected {}", before.seq, after.seq, pred.next.seq)));
-                    }
+                    self.seq_causal_probe(&after, i, cx);
                     // C10 / C05: identity follows the signer
                     if same_key && after.node_id != before.node_id {
                         cx.push(viol("C10", format!("C10/changed-under-same-key/{opn}"), String::new()));
